@@ -1,0 +1,15 @@
+//go:build verif
+
+// Verification hooks (add-only, compiled only with -tags verif). They expose
+// the unexported line scanners of the cleartext-signature splitter to the
+// out-of-tree correspondence harness in /verif (property C11); no existing
+// behaviour is changed.
+package pgptools
+
+import "io"
+
+// VerifTailClearSign calls tailClearSign.
+func VerifTailClearSign(r io.Reader) ([]byte, error) { return tailClearSign(r) }
+
+// VerifHeadClearSign calls headClearSign.
+func VerifHeadClearSign(r io.Reader, w io.Writer) error { return headClearSign(r, w) }
